@@ -288,7 +288,7 @@ func runC12(c *engine.Ctx) {
 
 	// ---- R7 release closures are queued only after the matching registration succeeded (shared with C13.R2) ----
 	c.Rule("R7", "in server/proxy a closure that un-registers a route, listener or group membership is appended to closeFuncs only on paths where the matching registration returned nil: a refused (duplicate) registration must leave the owner's entry alone")
-	c.Floor(checkCleanupAfterAcquire(c), 4)
+	c.Floor(checkCleanupAfterAcquire(c), 2)
 
 	// ---- R8 only the owner unregisters a name ----
 	c.Rule("R8", "proxy.Manager.Del is called only with the name of a proxy taken from the calling session's own table (ctl.proxies): a session that lost the race for a name, or a failed registration, never removes the incumbent's entry")
